@@ -102,9 +102,55 @@ theorem reencode_field (L : Layout) (hcov : covers L = true) (b old : Bytes) (v 
 theorem reencode_name (s : Bytes) (n : Nat) (h : s.length ≤ n) (hs : noEdgeNul s) :
     pad (trim0 (pad s n)) n = pad s n := by rw [trim0_pad s n h hs]
 
+/-- (3) Decode never panics on any input when every length-prefixed slice is guarded. -/
+theorem decode_total (L : Layout) (hs : decodeSafe L = true) (b : Bytes) : decode L b ≠ .panic := by
+  unfold decode
+  by_cases hg : guardRefuses L b = true
+  · simp [hg]
+  · simp only [hg]
+    have hall : (List.range L.fields.length).all (fun f => (decodeField L b f).isSome) = true := by
+      simp only [List.all_eq_true, List.mem_range]
+      intro f hf
+      unfold decodeSafe at hs
+      simp only [List.all_eq_true, List.mem_range] at hs
+      have h := hs f hf
+      unfold decodeField
+      cases hk : (L.fields.getD f default).kind <;> simp only [hk] at h ⊢ <;> try rfl
+      · cases hfind : L.strDecs.find? (fun sd => sd.field == f) <;> simp only <;> rfl
+      · cases hfind : L.strDecs.find? (fun sd => sd.field == f) with
+        | none => rfl
+        | some sd =>
+          simp only [hfind] at h ⊢
+          cases hlf : sd.lenField with
+          | none => rfl
+          | some lf =>
+            simp only [hlf, Bool.and_eq_true, beq_iff_eq, List.any_eq_true, decide_eq_true_eq] at h
+            simp only [hlf]
+            obtain ⟨hlen1, ⟨g, n⟩, hmem, hg1, hfit⟩ := h
+            simp only at hg1 hfit
+            subst hg1
+            have hnot : ¬ (fromLE (decodeInt b (L.dec.getD g [])) > n) := by
+              intro hgt
+              apply hg
+              unfold guardRefuses
+              simp only [List.any_eq_true, decide_eq_true_eq]
+              exact ⟨(g, n), hmem, hgt⟩
+            have hle : ((decodeInt b (L.dec.getD g [])).getD 0 0).toNat ≤ n := by
+              have hl : (decodeInt b (L.dec.getD g [])).length = 1 := by
+                unfold decodeInt; rw [List.length_map]; exact hlen1
+              match hd : decodeInt b (L.dec.getD g []), hl with
+              | [x], _ =>
+                rw [hd] at hnot
+                simp [fromLE] at hnot ⊢
+                omega
+            have : sd.start + ((decodeInt b (L.dec.getD g [])).getD 0 0).toNat ≤ 64 := by omega
+            rw [if_pos this]; rfl
+    simp [hall]
+
 /-! ### The generated tables satisfy the conditions (re-checked against the current source) -/
 
 theorem all_consistent : ∀ L ∈ Slock.Gen.allLayouts, consistent L = true := by decide
+theorem all_decode_safe : ∀ L ∈ Slock.Gen.allLayouts, decodeSafe L = true := by decide
 theorem all_cover : ∀ L ∈ Slock.Gen.allLayouts, covers L = true := by decide
 
 /-- Every protocol encoder writes all 64 bytes (nothing of a reused buffer leaks);
@@ -134,6 +180,6 @@ def sampleLock : Val :=
 
 example : consistent Slock.Gen.lockCommand = true ∧ wellTyped Slock.Gen.lockCommand sampleLock = true := by
   decide
-example : decode Slock.Gen.lockCommand (encode Slock.Gen.lockCommand sampleLock []) = some sampleLock := by decide
+example : decode Slock.Gen.lockCommand (encode Slock.Gen.lockCommand sampleLock []) = .ok sampleLock := by decide
 
 end Slock.C14
